@@ -679,6 +679,24 @@ var C12 = register(&HistProp{ID: "C12",
 		return g
 	},
 	Next: func(g *sim.G, i int) *sim.Op {
+		if op := queuedOp(g); op != nil {
+			return op
+		}
+		if g.Pct("pauserollback", 6) {
+			// the pauser's pause/unpause(s) in one transaction with a failing message: discarded by the SDK
+			m := g.W.Model
+			var ops []*sim.Op
+			for j, n := 0, g.Int("npause", 1, 2); j < n; j++ {
+				ops = append(ops, g.AdminOpOf("prb", sim.Pick(g, "prbt", pauseTypes), m.Roles[2]))
+			}
+			failer := sim.Acct(g.Acct("prb/f"))
+			if m.Pending != nil && *m.Pending == failer {
+				failer = sim.Acct((sim.AcctOfBytes(sdk.MustAccAddressFromBech32(failer)) + 1) % sim.NAccts)
+			}
+			ops = append(ops, sim.TxOp("admin:AcceptOwner", &types.MsgAcceptOwner{From: failer}))
+			queueOps(g, validFlow(g), validFlow(g))
+			return sim.Multi(ops...)
+		}
 		switch k := g.Int("kind", 0, 9); {
 		case k <= 2:
 			return g.AdminOp("pause", 75, pauseTypes)
